@@ -90,6 +90,11 @@ CHECKS = {
    technique="TLA+ model of the reader's validation protocol (DumpReader.tla: 8 protocol classes, adversarial count/size/offset fields, allocation and work accounting; one mutant per guard) model-checked by TLC; every terminal state instantiated as bytes in rich template dumps and driven through the whole reading and printing surface under a bounding allocator, panic capture and a watchdog; the statement's monitor (Trace_DumpReader.tla) evaluated by TLC on those runs and on boundary-value sweeps, truncations, hostile text streams and random files",
    text="TLC proves AllocBacked, WorkBounded and NoPanic for the protocol with every guard and shows that dropping any one guard breaks an invariant. Each terminal state becomes a set of field substitutions in valid dumps that contain all 24 stream types and 9 CPU context layouts in both byte orders (frozen writer); worker processes run Minidump::read, get_stream for all 24 types, every accessor and every print routine. TLC then evaluates Total (Ok or Err: no panic, abort or hang) and AllocBound (8 MiB + 256 L + L^2) on the recorded outcomes; the model's predicted stream result is compared as drift.",
    note="Trusted: TLC, DumpReader.tla / Trace_DumpReader.tla, the frozen writer and rich.rs templates, reader.rs (the surface driver), the counting allocator. The quantifier is over all byte strings: the cases are structured families, so this is exploration, not proof."),
+ "C02": dict(
+   level="model_checking", design_ref="DESIGN.md section 5 'C02'",
+   technique="TLA+ specification of what a well-formed dump means (DumpModel.tla: last-directory-entry-wins walk, file-order items, get_thread and stack fallback, identifier rules as constructor terms, memory byte maps, exact UTF-16 names, MISC_INFO layout rule) model-checked by TLC; every abstract dump written by the frozen vendored writer with seeded leaf values in both byte orders, read back with /repo's reader and compared item by item and byte by byte",
+   text="TLC checks ServedIsLast for every directory sequence and enumerates every abstract dump facet by facet. The harness renders each case into bytes (frozen writer, both byte orders, 32/64-bit memory lists), parses it with the code under test and compares: lists in file order, by_addr order, every address of every memory region, stack memory source, identifiers rendered from the specification's rule terms and the leaf values written, strings exactly. Rich templates covering all 24 stream types are read back field by field.",
+   note="Trusted: TLC, DumpModel.tla, the frozen writer (vendor/vf-synth) and the raw sections in replay_dumpmodel.rs / rich.rs, debugid/uuid for rendering identifiers. Leaf values are sampled; list sizes are 0..3."),
  "C16": dict(
    level="model_checking", design_ref="DESIGN.md section 5 'C16'",
    technique="TLA+ model of the download-and-cache protocol (HttpCache.tla: one action per await point and file-system effect, per-URL fault scripts, drop points, pre-existing entries, unusable directories, sym and file kinds) model-checked by TLC for one client and for two clients racing on one cache path; every terminal behaviour replayed on the real HttpSymbolSupplier against scripted raw-TCP loopback servers, with cache/ and tmp/ read back byte for byte and an offline repeat of the lookup",
